@@ -80,6 +80,25 @@ def cpair(a, b):
     return '(%s, %s)' % (a, b)
 
 
+def cjv(o):
+    """Python object (YAML/JSON-like) -> Coq term of type V.Lib.JTree.jv"""
+    if o is None:
+        return 'JNull'
+    if isinstance(o, bool):
+        return '(JBool %s)' % cbool(o)
+    if isinstance(o, int):
+        return '(JInt %s)' % cZ(o)
+    if isinstance(o, float):
+        return '(JFlt %s)' % cstr(repr(o))
+    if isinstance(o, (str, bytes)):
+        return '(JStr %s)' % cstr(o)
+    if isinstance(o, (list, tuple)):
+        return '(JList %s)' % clist(o, cjv)
+    if isinstance(o, dict):
+        return '(JDict %s)' % clist(list(o.items()), lambda kv: '(%s, %s)' % (cstr(str(kv[0])), cjv(kv[1])))
+    raise TypeError('cjv: %r' % (o,))
+
+
 # ------------------------------------------------------------------ subprocess helpers
 def sh(cmd, timeout=900, cwd=None, env=None):
     t0 = time.time()
